@@ -8,6 +8,7 @@ import (
 	"errors"
 	"fmt"
 	"image"
+	"net"
 	"reflect"
 	"sort"
 	"testing"
@@ -96,6 +97,7 @@ type botSim struct {
 	link      *simnet.Link
 	refuse    bool
 	configExt int
+	nCommon   int // the first nCommon handlers are the world's shared "common" list
 
 	// observations (written by tasks through norace methods)
 	log          []invocation
@@ -470,23 +472,24 @@ type pingHandler struct {
 }
 
 type dialer struct {
-	w      *kernel.World
-	srv    *server.Server
-	b      *botSim
-	cfgAB  simnet.LinkCfg
-	cfgBA  simnet.LinkCfg
-	byConn *connTable
+	w        *kernel.World
+	srv      *server.Server
+	b        *botSim
+	cfgAB    simnet.LinkCfg
+	cfgBA    simnet.LinkCfg
+	byConn   *connTable
+	listener *simnet.Listener
 }
 
 // connTable maps server-side conns to bots (no Go map: written and read by
 // different tasks, and runtime map access is race-instrumented).
 type connTable struct {
-	conns []*mcnet.Conn
+	conns []net.Conn // server-side sockets
 	bots  []*botSim
 }
 
 //go:norace
-func (t *connTable) add(c *mcnet.Conn, b *botSim) {
+func (t *connTable) add(c net.Conn, b *botSim) {
 	t.conns = append(t.conns, c)
 	t.bots = append(t.bots, b)
 }
@@ -494,7 +497,7 @@ func (t *connTable) add(c *mcnet.Conn, b *botSim) {
 //go:norace
 func (t *connTable) find(c *mcnet.Conn) *botSim {
 	for i := range t.conns {
-		if t.conns[i] == c {
+		if t.conns[i] == c.Socket {
 			return t.bots[i]
 		}
 	}
@@ -588,9 +591,14 @@ func (s *statusState) set(j []byte, err error) { s.json, s.err, s.done = j, err,
 func (d *dialer) DialMCContext(ctx context.Context, addr string) (*mcnet.Conn, error) {
 	link := simnet.Pipe(d.w, fmt.Sprintf("bot%d", d.b.idx), d.cfgAB, d.cfgBA)
 	d.b.setLink(link)
-	sc := mcnet.WrapConn(link.B)
-	d.byConn.add(sc, d.b)
-	d.w.Go(fmt.Sprintf("server%d", d.b.idx), func() { d.srv.AcceptConn(sc) })
+	d.byConn.add(link.B, d.b)
+	if d.listener != nil {
+		// the real accept loop (Server.Listen) picks the connection up
+		d.listener.Push(link.B)
+	} else {
+		sc := mcnet.WrapConn(link.B)
+		d.w.Go(fmt.Sprintf("server%d", d.b.idx), func() { d.srv.AcceptConn(sc) })
+	}
 	return mcnet.WrapConn(link.A), nil
 }
 
@@ -613,6 +621,20 @@ func scenarioWorld(c *harness.Ctx) {
 	for i := 0; i < nBots; i++ {
 		bots = append(bots, drawBot(tp, i, threshold, names))
 	}
+	// A list of generic handlers shared by all bots, registered by each of them
+	// from ONE slice (with spare capacity) before its own handlers - the way an
+	// application with several clients sets up its common listeners.
+	var common []handlerCfg
+	if nBots >= 2 && tp.Bool(1, 2) {
+		pSharedHandlers.Hit()
+		for i := 1 + tp.Choose(3); i > 0; i-- {
+			common = append(common, handlerCfg{generic: true, priority: tp.Choose(3)})
+		}
+		for _, b := range bots {
+			b.handlers = append(append([]handlerCfg(nil), common...), b.handlers...)
+			b.nCommon = len(common)
+		}
+	}
 	refuseNames := map[string]bool{}
 	for _, b := range bots {
 		if tp.Bool(1, 6) {
@@ -621,7 +643,8 @@ func scenarioWorld(c *harness.Ctx) {
 			pRefused.Hit()
 		}
 	}
-	statusMode := tp.Choose(4) // 0 none, 1 at start, 2 concurrently, 3 after all joined
+	statusMode := tp.Choose(4)  // 0 none, 1 at start, 2 concurrently, 3 after all joined
+	listenMode := tp.Bool(1, 2) // connections arrive through the real Server.Listen accept loop
 	withDeadline := tp.Bool(1, 2)
 	var icon image.Image
 	if tp.Bool(1, 3) {
@@ -666,6 +689,7 @@ func scenarioWorld(c *harness.Ctx) {
 	c.Config["threshold"] = threshold
 	c.Config["bots"] = nBots
 	c.Config["status_mode"] = statusMode
+	c.Config["listen_mode"] = listenMode
 	for _, b := range bots {
 		var prios []string
 		for _, h := range b.handlers {
@@ -691,6 +715,7 @@ func scenarioWorld(c *harness.Ctx) {
 	)
 	out, w := c.World(func(w *kernel.World) {
 		w.MaxSteps = 2_000_000
+		w.Drain = true // server tasks started by the accept loop are daemons: let them finish
 		pl = server.NewPlayerList(maxPlayers)
 		pingInfo = server.NewPingInfo("sim-1.21", bot.ProtocolVersion, motd, icon)
 		gp := &gamePlay{w: w, c: c, bots: map[string]*botSim{}, pl: pl}
@@ -698,6 +723,30 @@ func scenarioWorld(c *harness.Ctx) {
 			gp.bots[b.name] = b
 		}
 		byConn := &connTable{}
+		commonHs := make([]bot.PacketHandler, 0, len(common)+8)
+		for ci, h := range common {
+			ci, h := ci, h
+			commonHs = append(commonHs, bot.PacketHandler{Priority: h.priority, F: func(p pk.Packet) error {
+				// which bot is dispatching is known from the running task ("bot<idx>")
+				var bb *botSim
+				if t := w.Me(); t != nil {
+					for _, cand := range bots {
+						if t.Name == fmt.Sprintf("bot%d", cand.idx) {
+							bb = cand
+						}
+					}
+				}
+				if bb == nil {
+					c.Fail("gate.dispatch", "handlers", "foreign-task", "a shared handler ran outside any bot's HandleGame task")
+					return nil
+				}
+				if n := bb.invoked(ci, p, w.Seq()); n == bb.failAt {
+					pHandlerError.Hit()
+					return errHandler
+				}
+				return nil
+			}})
+		}
 		srv := &server.Server{
 			ListPingHandler: pingHandler{pingInfo, pl},
 			LoginHandler: &server.MojangLoginHandler{OnlineMode: false, Threshold: threshold,
@@ -710,14 +759,25 @@ func scenarioWorld(c *harness.Ctx) {
 			}},
 			GamePlay: gp,
 		}
+		var listener *simnet.Listener
+		if listenMode {
+			pListen.Hit()
+			listener = simnet.NewListener(w, "sim.example:25565")
+			simnet.Listen = func(network, address string) (net.Listener, error) { return listener, nil }
+			w.GoDaemon("accept-loop", func() { _ = srv.Listen("sim.example:25565") })
+		}
 		var joinedWG simsync.WaitGroup
 		joinedWG.Add(nBots)
 		doStatus := func() {
 			pStatus.Hit()
 			sl := simnet.Pipe(w, "status", statusCfg[0], statusCfg[1])
 			status.setLink(sl)
-			sc := mcnet.WrapConn(sl.B)
-			w.Go("server-status", func() { srv.AcceptConn(sc) })
+			if listener != nil {
+				listener.Push(sl.B)
+			} else {
+				sc := mcnet.WrapConn(sl.B)
+				w.Go("server-status", func() { srv.AcceptConn(sc) })
+			}
 			ctx := context.Background()
 			if withDeadline {
 				pStatusDeadline.Hit()
@@ -751,8 +811,14 @@ func scenarioWorld(c *harness.Ctx) {
 				client := bot.NewClient()
 				client.Auth.Name = b.name
 				// handlers, registered in tape-chosen batches
+				if b.nCommon > 0 {
+					client.Events.AddGeneric(commonHs...)
+				}
 				var hs []bot.PacketHandler
 				for hi, h := range b.handlers {
+					if hi < b.nCommon {
+						continue
+					}
 					hi, h := hi, h
 					hs = append(hs, bot.PacketHandler{ID: packetid.ClientboundPacketID(h.id), Priority: h.priority, F: func(p pk.Packet) error {
 						n := b.invoked(hi, p, w.Seq())
@@ -784,7 +850,7 @@ func scenarioWorld(c *harness.Ctx) {
 					off += n
 					var g, s []bot.PacketHandler
 					for k, h := range batch {
-						if b.handlers[off-n+k].generic {
+						if b.handlers[b.nCommon+off-n+k].generic {
 							g = append(g, h)
 						} else {
 							s = append(s, h)
@@ -808,7 +874,7 @@ func scenarioWorld(c *harness.Ctx) {
 					qr = queue.NewChannelQueue[pk.Packet](len(b.s2c)*2 + 64)
 					qw = queue.NewChannelQueue[pk.Packet](len(b.c2s) + len(b.expectedReplies()) + 8)
 				}
-				d := &dialer{w: w, srv: srv, b: b, cfgAB: cfgs[i][0], cfgBA: cfgs[i][1], byConn: byConn}
+				d := &dialer{w: w, srv: srv, b: b, cfgAB: cfgs[i][0], cfgBA: cfgs[i][1], byConn: byConn, listener: listener}
 				jerr := client.JoinServerWithOptions(b.addr, bot.JoinOptions{MCDialer: d, QueueRead: qr, QueueWrite: qw})
 				b.setJoinErr(jerr)
 				if jerr != nil {
@@ -839,6 +905,7 @@ func scenarioWorld(c *harness.Ctx) {
 			})
 		}
 	})
+	simnet.Listen = nil
 	if c.Infra != "" {
 		return
 	}
@@ -1106,3 +1173,7 @@ var prop = &harness.Property{
 }
 
 func TestWorker(t *testing.T) { harness.Main(t, prop) }
+
+var pListen = simrt.NewProbe("server.Listen.accept.loop.on.a.simulated.listener")
+
+var pSharedHandlers = simrt.NewProbe("handlers.common.list.shared.by.several.bots(one.slice)")
